@@ -203,6 +203,8 @@ def chk_shape(L, T, p, acc, disp):
         if prev is not None and not seq_lt_term(L, prev, k):
             L.fail('qualifiers are not printed in ascending key order')
         prev = k
+        if len(v) == 0:
+            L.fail('an absent part is printed: qualifier with an empty value')
 
 
 # ------------------------------------------------------------------------------------------ invariants (C04)
